@@ -160,8 +160,14 @@ def run(ctx, exh, sims, critical_acts, rule, assumptions, require_hist=None, not
         def critical(c, r, acts=critical_acts):
             st = r.get("stats") or {}
             return any(st.get(a, 0) > 0 for a in acts)
-        res = ctx.replay_behaviours(binary, cases, critical=critical, wrap=lambda c: c, timeout=ctx.q(3600, 4 * 3600),
-                                    fingerprint=lambda c, r: ctx.id + ":" + str(r.get("fp")))
+        # memory: every opened repository + SQL engine leaves ~20 MB behind in the engine process even after Close();
+        # at most 4 engine processes at a time, each recycled after ~10 cases
+        res = []
+        for i in range(0, len(cases), 40):
+            res += ctx.replay_behaviours(binary, cases[i:i + 40], critical=critical, wrap=lambda c: c, shards=4,
+                                         timeout=ctx.q(3600, 4 * 3600), fingerprint=lambda c, r: ctx.id + ":" + str(r.get("fp")))
+            if ctx.violations:
+                break
         agg = collections.Counter()
         for r in res:
             for k, v in (r.get("stats") or {}).items():
